@@ -93,7 +93,7 @@ def border_allowance(table):
     return rows, cols
 
 
-def compare(g0, g1, allowances, rec, case, fx, stage):
+def compare(g0, g1, allowances, rec, case, fx, stage, exempt_tables=()):
     n = 0
     if [s["name"] for s in g0] != [s["name"] for s in g1]:
         rec.violation("sheet_names", {**fx, "stage": stage}, {"before": [s["name"] for s in g0], "after": [s["name"] for s in g1]}, case=case)
@@ -103,6 +103,9 @@ def compare(g0, g1, allowances, rec, case, fx, stage):
             rec.violation("table_count", {**fx, "stage": stage}, {"sheet": s0["name"]}, case=case)
             return n + 1
         for ti, (t0, t1) in enumerate(zip(s0["tables"], s1["tables"])):
+            if t0["name"] in exempt_tables or t1["name"] in exempt_tables:
+                rec.count("exempt_pivot_tables")  # the library warns that it does not write pivot tables
+                continue
             rec.count("tables_compared")
             for a in ATTRS:
                 if a == "row_heights":
@@ -322,7 +325,7 @@ def api_case(case, rec):
         asked = {}
         for op in recipe["ops"]:
             k = op["op"]
-            if k in ("row_height", "col_width") and not borders and not case.get("fixture"):  # a source document may have borders of its own
+            if k in ("row_height", "col_width") and not borders:
                 asked[(tuple(op["tbl"]), k, op.get("r", op.get("c")))] = op.get("h", op.get("w"))
             elif k in ("header_rows", "header_cols"):
                 asked[(tuple(op["tbl"]), k)] = op["n"]
@@ -340,7 +343,12 @@ def api_case(case, rec):
             rec.count("api_values_checked")
             if got != want:
                 rec.violation("api_value_not_reported", {"attr": key[1]}, {"asked": repr(want)[:100], "reported": repr(got)[:100]}, case=case)
-        docs.save(doc, src)
+        import re as _re
+        pivots = set()
+        for _cat, msg in docs.save(doc, src):
+            m = _re.match(r"^Not modifying pivot table '(?P<table>.*)'$", msg)
+            if m:
+                pivots.add(m["table"])
     except Exception as e:  # noqa: BLE001
         rec.build_failure(f"api document: {type(e).__name__}: {str(e)[:60]}")
         return
@@ -353,7 +361,19 @@ def api_case(case, rec):
             doc1 = Document(src)
             g1 = geo(doc1)
             allow = {(si, ti): border_allowance(doc1.sheets[si].tables[ti]) for si in range(len(doc1.sheets)) for ti in range(len(doc1.sheets[si].tables))}
-        compare(g_set, g1, allow, rec, case, fx, "set-vs-reopened")
+        # a pivot table is not written at all (the library says so in a warning that names it): what was set on it is
+        # exempt, under the name it had before or after the edits
+        renamed_from = set()
+        if pivots:
+            with warnings.catch_warnings():
+                warnings.simplefilter("ignore")
+                d0 = Document(case["fixture"]) if case.get("fixture") else None
+            if d0 is not None:
+                for si in range(len(d0.sheets)):
+                    for ti in range(len(d0.sheets[si].tables)):
+                        if g_set[si]["tables"][ti]["name"] in pivots or d0.sheets[si].tables[ti].name in pivots:
+                            renamed_from |= {g_set[si]["tables"][ti]["name"], d0.sheets[si].tables[ti].name}
+        compare(g_set, g1, allow, rec, case, fx, "set-vs-reopened", exempt_tables=pivots | renamed_from)
         cycle_case(src, case["queried"], case["cycles"], rec, case, f"a{case['rseed']}", fx)
     finally:
         if os.path.exists(src):
@@ -371,7 +391,7 @@ def api_case(case, rec):
 def run_api(spec, rec):
     rng = random.Random(f"C16-api-{spec['seed']}-{spec['stream']}")
     from vf import corpus
-    small = sorted(p for p in corpus.readable_fixtures()[0] if os.path.isfile(p) and os.path.getsize(p) < 400_000 and "pivot" not in os.path.basename(p))  # pivot tables are not written (the library warns)
+    small = sorted(p for p in corpus.readable_fixtures()[0] if os.path.isfile(p) and os.path.getsize(p) < 400_000)
     for i in range(spec["n"]):
         case = {"part": "api", "rseed": rng.randrange(1 << 40), "queried": rng.choice([False, True, "partial"]), "cycles": spec["cycles"]}
         if rng.random() < .3 and small:
